@@ -655,6 +655,12 @@ pub fn run_read_case(rc: &ReadCase) -> RunReport {
         }
         v => v,
     };
+    // bigBed, one file in 40: the first interval queries of the history also through `bigtools intersect` (built binary)
+    let verdict = if verdict == Verdict::Pass && rc.file.kind == Kind::Bed && crate::rng::hash_bytes(&image) % 40 == 0 {
+        intersect_check(rc, &image, &ops, &mut st)
+    } else {
+        verdict
+    };
     st.steps = ops.len() as u64;
     st.trace_hash = crate::rng::hash_bytes(&serde_json::to_vec(&ops).unwrap());
     RunReport {
@@ -662,6 +668,61 @@ pub fn run_read_case(rc: &ReadCase) -> RunReport {
         nontrivial: blocks >= 2 && ops.len() >= 2,
         stats: st,
     }
+}
+
+fn intersect_check(rc: &ReadCase, image: &[u8], ops: &[ROp], st: &mut RunStats) -> Verdict {
+    let bin = match std::env::var("VERIF_BIGTOOLS_BIN") {
+        Ok(b) if std::path::Path::new(&b).exists() => b,
+        _ => return Verdict::Pass,
+    };
+    let dir = match tempfile::tempdir() {
+        Ok(d) => d,
+        Err(e) => return Verdict::Skip(format!("HARNESS: tempdir: {}", e)),
+    };
+    let big = dir.path().join("in.bb");
+    if std::fs::write(&big, image).is_err() {
+        return Verdict::Skip("HARNESS: scratch write".into());
+    }
+    let mut done = 0;
+    for op in ops {
+        let (c, s, e) = match op {
+            ROp::Interval { c, s, e } | ROp::Move { c, s, e } => (*c, *s, *e),
+            _ => continue,
+        };
+        if s >= e {
+            continue;
+        }
+        let ch = &rc.file.chroms[c];
+        let q = dir.path().join(format!("q{}.bed", done));
+        if std::fs::write(&q, format!("{}\t{}\t{}\n", ch.name, s, e)).is_err() {
+            return Verdict::Skip("HARNESS: scratch write".into());
+        }
+        let out = match std::process::Command::new(&bin).arg("intersect").arg(&q).arg(&big).output() {
+            Ok(o) => o,
+            Err(e) => return Verdict::Skip(format!("HARNESS: cannot run {}: {}", bin, e)),
+        };
+        if !out.status.success() {
+            return viol("intersect-tool", format!("exit {:?}: {}", out.status.code(), String::from_utf8_lossy(&out.stderr).chars().take(200).collect::<String>()));
+        }
+        let text = String::from_utf8_lossy(&out.stdout).to_string();
+        let mut got = vec![];
+        for line in text.lines() {
+            let mut f = line.splitn(4, '\t');
+            let _chrom = f.next();
+            let gs: u32 = f.next().and_then(|x| x.parse().ok()).unwrap_or(u32::MAX);
+            let ge: u32 = f.next().and_then(|x| x.parse().ok()).unwrap_or(u32::MAX);
+            got.push(Item::bed(gs, ge, f.next().unwrap_or("")));
+        }
+        if let Err(m) = bed_answer_ok(&got, &ch.items, s, e) {
+            return viol("intersect-tool", format!("bigtools intersect {} {}", ch.name, m));
+        }
+        *st.counters.entry("queries_through_bigtools_intersect(subprocess)".into()).or_insert(0) += 1;
+        done += 1;
+        if done >= 3 {
+            break;
+        }
+    }
+    Verdict::Pass
 }
 
 /// C05: queries that start or end on a block boundary or one base either side of it.
